@@ -3,7 +3,7 @@
 redirected).  usage: rerun_own.py SHARD NSHARDS [ids..]   results: /tmp/sv/rerun_own_<shard>.json"""
 import json, os, subprocess, sys, glob
 shard, n = int(sys.argv[1]), int(sys.argv[2])
-ids = sys.argv[3:] or sorted(os.path.basename(d) for d in glob.glob('/verif/seeded/C*'))
+ids = sys.argv[3:] or sorted(os.path.basename(d) for d in glob.glob('/verif/seeded/C*-*') + glob.glob('/verif/seeded/R*-*'))
 ids = [s for i, s in enumerate(ids) if i % n == shard]
 WT = f'/tmp/sv/own{shard}'
 HERE = os.path.dirname(os.path.dirname(os.path.abspath(__file__)))
@@ -22,7 +22,7 @@ try:
         if a.returncode:
             res[sid] = {'error': 'patch does not apply'}
             continue
-        prop = sid.split('-')[0]
+        prop = json.load(open(f'/verif/seeded/{sid}/meta.json')).get('property', sid.split('-')[0])
         c = subprocess.run(['python3', '-m', 'vf.check', prop], cwd=HERE, env=env, capture_output=True, text=True)
         viol = [l[:300] for l in c.stdout.split('\n') if l.startswith('VIOLATION')]
         res[sid] = {'exit': c.returncode, 'violations': viol[:6], 'bounded_only': bool(viol) and all('obligation=bounded:' in l for l in viol),
